@@ -197,11 +197,11 @@ impl<'a> Judge<'a> {
                     sig.push('!');
                     let to = attribute(&v);
                     self.rep.obs(&format!("rule_{}_fired", v.rule), 1);
-                    if to.map(|p| p != self.prop).unwrap_or(true) {
+                    if !to.contains(&self.prop.as_str()) {
                         // a rule of another property fired: not this check's business (its own check reports it)
                         self.rep.obs("other_property_rule_hits", 1);
                     }
-                    if let Some(p) = to.filter(|p| *p == self.prop) {
+                    if let Some(p) = to.iter().copied().find(|p| *p == self.prop) {
                         let rargs = self.args.to_vec_with(&replay.iter().map(|(k, v)| (*k, v.clone())).collect::<Vec<_>>());
                         self.rep.violation(Violation {
                             property: p.to_string(),
